@@ -51,14 +51,55 @@ def loader_consts() -> dict:
     rem = T.func(mod, "_remove_nodes")
     out: dict = {}
     out["l_hash_split"] = _one_lit(_calls(single, "split", "req_hash_part"), "hash split")
-    sw_sp = _calls(single, "startswith", "source_part")
-    out["l_via_sp"] = _one_lit(sw_sp, "source_part.startswith")
+    # the layout test: `accumulated or not source_part.strip() or (source_part.strip() + <pad>).startswith(<word>)`;
+    # the text heuristics of the unrepaired loader (`"#" in source_part`, source_part.startswith) must be gone
+    tests = [n for n in single.body if isinstance(n, ast.If) and isinstance(n.test, ast.BoolOp) and isinstance(n.test.op, ast.Or)
+             and any(isinstance(x, ast.Name) and x.id == "accumulated" for x in ast.walk(n.test))]
+    if len(tests) != 1 or len(tests[0].test.values) != 3:
+        raise TranslateError("layout test `accumulated or not source_part.strip() or ...` not recognised")
+    t0, t1, t2 = tests[0].test.values
+    if not (isinstance(t0, ast.Name) and t0.id == "accumulated"):
+        raise TranslateError("layout test: first disjunct is not `accumulated`")
+    if not (isinstance(t1, ast.UnaryOp) and isinstance(t1.op, ast.Not) and ast.unparse(t1.operand) == "source_part.strip()"):
+        raise TranslateError("layout test: second disjunct is not `not source_part.strip()`")
+    if not (isinstance(t2, ast.Call) and isinstance(t2.func, ast.Attribute) and t2.func.attr == "startswith" and len(t2.args) == 1
+            and isinstance(t2.func.value, ast.BinOp) and isinstance(t2.func.value.op, ast.Add)
+            and ast.unparse(t2.func.value.left) == "source_part.strip()" and isinstance(t2.func.value.right, ast.Constant)):
+        raise TranslateError("layout test: third disjunct is not `(source_part.strip() + pad).startswith(word)`")
+    out["l_via_word"] = T.literal(t2.args[0])
+    out["l_via_pad"] = T.literal(t2.func.value.right)
+    if _calls(single, "startswith", "source_part") or any(
+            isinstance(n, ast.Compare) and isinstance(n.ops[0], ast.In) and isinstance(n.comparators[0], ast.Name)
+            and n.comparators[0].id == "source_part" for n in ast.walk(single)):
+        raise TranslateError("layout test still guesses from the text (source_part.startswith / '#' in source_part)")
+    # who passes accumulated=True: exactly the flush in _parse_multi_line
+    acc_calls = [(fn.name, c) for fn in (multi, T.func(mod, "_parse_line"), T.func(mod, "_load_from_lines"))
+                 for c in _calls(fn, "_parse_single_line") if any(k.arg == "accumulated" for k in c.keywords)]
+    if len(acc_calls) != 1 or acc_calls[0][0] != "_parse_multi_line" or \
+            [T.literal(k.value) for k in acc_calls[0][1].keywords if k.arg == "accumulated"] != [True]:
+        raise TranslateError("accumulated=True is not passed by (only) _parse_multi_line")
+    sig = single.args
+    if [a.arg for a in sig.args][-1] != "accumulated" or T.literal(sig.defaults[-1]) is not False:
+        raise TranslateError("_parse_single_line(..., accumulated=False) signature not recognised")
+    # the location test shared by both layouts
+    loc = T.func(mod, "_is_location")
+    out["sol_url_prefixes"] = _strs(_one_lit(_calls(loc, "startswith", "text"), "location prefixes"), "url prefixes")
+    out["sol_url_suffixes"] = _strs(_one_lit(_calls(loc, "endswith", "text"), "location suffixes"), "url suffixes")
+    if not (len(loc.body) == 2 and isinstance(loc.body[1], ast.Return) and isinstance(loc.body[1].value, ast.BoolOp)
+            and isinstance(loc.body[1].value.op, ast.Or) and len(loc.body[1].value.values) == 2):
+        raise TranslateError("_is_location is not `return text.startswith(..) or text.endswith(..)`")
+    loc_calls = [ast.unparse(c.args[0]) for c in _calls(single, "_is_location") ] if False else \
+        [ast.unparse(n.args[0]) for n in ast.walk(single) if isinstance(n, ast.Call) and isinstance(n.func, ast.Name) and n.func.id == "_is_location"]
+    if sorted(loc_calls) != sorted(["part", "tail.partition('#')[0]"]):
+        raise TranslateError(f"_is_location call sites not recognised: {loc_calls}")
     part_sw = [T.literal(c.args[0]) for c in _calls(single, "startswith", "part") if len(c.args) == 1]
-    if len(part_sw) != 2 or not isinstance(part_sw[0], tuple) or not isinstance(part_sw[1], str):
-        raise TranslateError("part.startswith calls: expected (tuple of prefixes), then 'via'")
-    out["sol_url_prefixes"] = _strs(part_sw[0], "url prefixes")
-    out["l_via"] = part_sw[1]
-    out["sol_url_suffixes"] = _strs(_one_lit(_calls(single, "endswith", "part"), "part.endswith"), "url suffixes")
+    if len(part_sw) != 1 or not isinstance(part_sw[0], str) or _calls(single, "endswith", "part"):
+        raise TranslateError("part.startswith('via') not recognised")
+    out["l_via"] = part_sw[0]
+    # one-line layout: the URL is the last blank-separated token of the last source
+    rp = [c for c in ast.walk(single) if isinstance(c, ast.Call) and isinstance(c.func, ast.Attribute) and c.func.attr == "rpartition"]
+    if len(rp) != 1 or ast.unparse(rp[0].func.value) != "sources[-1]" or [T.literal(a) for a in rp[0].args] != [" "]:
+        raise TranslateError("sources[-1].rpartition(' ') not recognised")
     # part != "via"  and  part[4:]
     cmps = [n for n in ast.walk(single) if isinstance(n, ast.Compare) and isinstance(n.left, ast.Name) and n.left.id == "part"
             and len(n.ops) == 1 and isinstance(n.ops[0], ast.NotEq)]
@@ -88,15 +129,17 @@ def loader_consts() -> dict:
         raise TranslateError("requirer-is-a-path test not recognised")
     out["sol_path_suffixes"] = sufs
     out["sol_path_infixes"] = infx
-    miss = set()
-    for fn in (adds, rem):
-        for n in ast.walk(fn):
-            if isinstance(n, ast.Call) and isinstance(n.func, ast.Attribute) and n.func.attr == "parse_version" \
-                    and len(n.args) == 1 and isinstance(n.args[0], ast.Constant):
-                miss.add(n.args[0].value)
-    if len(miss) != 1:
-        raise TranslateError(f"placeholder version constants: {miss}")
-    out["sol_missing"] = miss.pop()
+    # placeholders are told by their origin, not by a version value
+    if any(isinstance(n, ast.Call) and isinstance(n.func, ast.Attribute) and n.func.attr == "parse_version" for n in ast.walk(rem)):
+        raise TranslateError("_remove_nodes still compares a version value")
+    tests_rem = [ast.unparse(n.test) for n in ast.walk(rem) if isinstance(n, ast.If)]
+    if tests_rem != ["node.metadata is None or node.metadata.origin is not self"]:
+        raise TranslateError(f"_remove_nodes test not recognised: {tests_rem}")
+    origin_self = [n for n in ast.walk(adds) if isinstance(n, ast.Assign) and ast.unparse(n.targets[0]) == "metadata.origin"
+                   and ast.unparse(n.value) == "self"]
+    inner_origin = [n for n in ast.walk(adds) if isinstance(n, ast.Assign) and ast.unparse(n.targets[0]) == "inner_meta.origin"]
+    if len(origin_self) != 1 or len(inner_origin) != 1 or ast.unparse(inner_origin[0].value) == "self":
+        raise TranslateError("_add_sources: metadata.origin = self / inner_meta.origin = <other> not recognised")
     # directive skip in _load_from_lines
     lfl = T.func(mod, "_load_from_lines")
     dsk = [T.literal(c.args[0]) for c in _calls(lfl, "startswith")]
@@ -119,10 +162,54 @@ def _is_name(e: ast.expr, name: str) -> bool:
     return (isinstance(e, ast.Name) and e.id == name) or (isinstance(e, ast.Attribute) and e.attr == name)
 
 
+def _bool_expr(e: ast.expr) -> str:
+    """A boolean expression over the writer's `hashes` / `urls` arguments, as Coq."""
+    if isinstance(e, ast.Name) and e.id in ("hashes", "urls"):
+        return e.id
+    if isinstance(e, ast.Constant) and isinstance(e.value, bool):
+        return "true" if e.value else "false"
+    if isinstance(e, ast.BoolOp) and isinstance(e.op, (ast.And, ast.Or)):
+        op = " && " if isinstance(e.op, ast.And) else " || "
+        return "(" + op.join(_bool_expr(v) for v in e.values) + ")"
+    if isinstance(e, ast.UnaryOp) and isinstance(e.op, ast.Not):
+        return "(negb " + _bool_expr(e.operand) + ")"
+    raise TranslateError("default-format rule: unsupported expression " + ast.dump(e)[:120])
+
+
+def default_format_rule(w: ast.FunctionDef) -> str:
+    """`if multiline is None [and <cond>]: multiline = <value>` -> the format chosen when it is left to the tool
+    (None stays None, i.e. one-line, when the condition is false)."""
+    def is_none_test(t: ast.expr) -> bool:
+        return (isinstance(t, ast.Compare) and isinstance(t.left, ast.Name) and t.left.id == "multiline" and len(t.ops) == 1
+                and isinstance(t.ops[0], ast.Is) and isinstance(t.comparators[0], ast.Constant) and t.comparators[0].value is None)
+    rules = []
+    for n in w.body:
+        if isinstance(n, ast.If) and any(isinstance(x, ast.Name) and x.id == "multiline" for x in ast.walk(n.test)) \
+                and any(isinstance(x, ast.Constant) and x.value is None for x in ast.walk(n.test)):
+            rules.append(n)
+    # any other assignment to `multiline` in the function would change the format behind the model's back
+    assigns = [n for n in ast.walk(w) if isinstance(n, (ast.Assign, ast.AugAssign, ast.AnnAssign))
+               and any(isinstance(t, ast.Name) and t.id == "multiline" for t in ast.walk(n.targets[0] if isinstance(n, ast.Assign) else n.target))]
+    if len(rules) != 1 or len(assigns) != 1:
+        raise TranslateError(f"default-format rule: expected one `if multiline is None ...: multiline = ...`, found {len(rules)} rules / {len(assigns)} assignments")
+    r = rules[0]
+    if r.orelse or len(r.body) != 1 or r.body[0] is not assigns[0] or not isinstance(r.body[0], ast.Assign):
+        raise TranslateError("default-format rule: body is not a single assignment to multiline")
+    if is_none_test(r.test):
+        cond = "true"
+    elif isinstance(r.test, ast.BoolOp) and isinstance(r.test.op, ast.And) and is_none_test(r.test.values[0]):
+        rest = r.test.values[1:]
+        cond = _bool_expr(rest[0]) if len(rest) == 1 else "(" + " && ".join(_bool_expr(v) for v in rest) + ")"
+    else:
+        raise TranslateError("default-format rule: test is not `multiline is None [and ...]`")
+    return f"if {cond} then {_bool_expr(r.body[0].value)} else false"
+
+
 def writer_consts() -> dict:
     mod = T.parse("req_compile/cmdline.py")
     w = T.func(mod, "write_requirements_file")
     out: dict = {}
+    out["w_default_multi"] = ("fun", default_format_rule(w))
     pairs: List[Tuple[str, str]] = []
     not_multi: List[str] = []
     for n in ast.walk(w):
@@ -205,6 +292,10 @@ def gen_sol_consts() -> str:
     body = T.HEADER + "Open Scope nat_scope.\n"
     for k in sorted(wc):
         v = wc[k]
+        if isinstance(v, tuple) and v[0] == "fun":
+            # the format the writer chooses when `multiline` is None, as a function of hashes / urls
+            body += f"Definition {k} (hashes urls : bool) : bool := {v[1]}.\n"
+            continue
         body += f"Definition {k} : {'nat' if isinstance(v, int) else 'string'} := {v if isinstance(v, int) else cs(v)}.\n"
     for k in sorted(lc):
         v = lc[k]
